@@ -81,8 +81,10 @@ ThreadEvent(e) ==
           ELSE IF Len(e.a) < 1 THEN Reject                \* payload < 4 bytes
           ELSE LET c == CpuByIndex(sys.threads[t].loom, e.a[1]) IN
                IF c = 0 THEN Reject
-               ELSE IF s = "dead" THEN Unspec             \* left open by C04
-               ELSE IF s # "unknown" THEN Reject          \* "already has a CPU"
+               ELSE IF s # "unknown" THEN Reject          \* only a thread that never ran executes (C04:
+                                                          \* "execute: not started -> running"); paused/cooling/
+                                                          \* warming: "already has a CPU"; dead: refused since
+                                                          \* "fix: emu: refuse to execute a thread again"
                ELSE Accept([thState EXCEPT ![t] = "running"], [thCpu EXCEPT ![t] = c])
      [] e.m = "OHe" ->
           IF s \in {"running", "cooling"}
